@@ -325,6 +325,10 @@ def gen_project(rng, opts=None):
         if l != default and rng.chance(1, 3) and len(locales) > 1:
             tgt = rng.pick([x for x in locales if x != l] or [default])
             inherits[l] = tgt
+    if opts.get("chain") and len(locales) >= 3:
+        nd = [l for l in locales if l != default]
+        inherits.pop(nd[0], None)
+        inherits[nd[1]] = nd[0]          # at least one locale inherits from a non-default one
     files = {}
     all_plans = {}
     for ns in (namespaces or [None]):
